@@ -537,6 +537,9 @@ int disasm_arm(
   opcode = memory->read32(address);
   //printf("%08x: opcode=%08x\n", address, opcode);
 
+  // Encodings that match no table entry leave this as the text.
+  snprintf(instruction, length, "???");
+
   int n = 0;
   while (table_arm[n].instr != NULL)
   {
